@@ -64,3 +64,19 @@ Theorem C02_euler_relation : forall P ncomp cz nouts T V N consts k y dv,
   dv = y.
 Proof. exact euler_relation. Qed.
 Print Assumptions C02_euler_relation.
+
+(** Euler's relation for any degree [j]: V df/dV + sum_i N_i df/dN_i = j f.  Instantiated (per regenerated program, by the
+    degree check on the DERIVATIVE program [tan_outs P n [0]] seeded with a unit direction) it gives, for all states:
+    pressure and chemical potentials are homogeneous of degree 0 and the entropy of degree 1 ([C02_program_homogeneous] on the
+    derivative program: intensive properties do not depend on the amount of substance), and the Gibbs-Duhem type identities
+    V dp/dV + sum_i N_i dp/dN_i = 0 and V dmu_k/dV + sum_i N_i dmu_k/dN_i = 0 (this theorem with j = 0). *)
+Theorem C02_euler_relation_any_degree : forall P ncomp cz nouts (j : Z) T V N consts k y dv,
+  outputs_deg P ncomp cz nouts j = true ->
+  length N = ncomp -> consts_ok cz consts -> (k < nouts)%nat ->
+  let n := length (thermo_env T V N consts) in
+  wscoped P n = true -> (k < length P + n)%nat ->
+  out_ext P (thermo_env T V N consts) k = Xreal y ->
+  nth 0 (eval_ext (tan_outs P n [k]) (map Xreal (thermo_env T V N consts ++ euler_dir V N consts))) Xnan = Xreal dv ->
+  dv = (IZR j * y)%R.
+Proof. exact euler_relation_deg. Qed.
+Print Assumptions C02_euler_relation_any_degree.
